@@ -18,6 +18,24 @@ def parseROp (t : String) : Option Op :=
   | ["r"] => some .preset
   | _ => none
 
+/-- an operation of a case: a model operation, or "the application stores its own status-byte bits", which becomes a write
+of the status byte whose value depends on the state it is applied to: summary bits (2, 3, 5, 7) as they are, bits 0, 1, 4 as
+given, bit 6 kept or cleared -/
+inductive ROp where
+  | plain (o : Op)
+  | app (bits : Reg) (keep6 : Bool)
+
+def ROp.resolve (s : St) : ROp → Op
+  | .plain o => o
+  | .app bits keep6 =>
+    let cur := get s STB
+    .set STB ((cur &&& 0xAC#16) ||| (bits &&& 0x13#16) ||| (if keep6 then cur &&& 0x40#16 else 0#16))
+
+def parseROp' (t : String) : Option ROp :=
+  match t.splitOn "," with
+  | ["a", b, k] => do some (.app (BitVec.ofNat 16 (← parseHexNat b)) (k != "0"))
+  | _ => (parseROp t).map .plain
+
 def regsStr (s : St) (srq : List Reg) (cb : List Int) : String :=
   ".".intercalate (s.regs.map (fun r => hex4 r.toNat)) ++ s!",{s.qn}," ++
   (if srq.isEmpty then "-" else "/".intercalate (srq.map (fun r => hex4 r.toNat))) ++ "," ++
@@ -46,8 +64,14 @@ def isClearing (ev : Nat) : Op → Bool
   | _ => false
 
 /-- judge one transition of the implementation: before, op, after, srq values emitted -/
-def judgeR (before : St) (op : Op) (after : St) (srq : List Reg) (srqStale : Bool := false) : List String :=
-  let c11 := if op.ok && decide (Coherent before) && !decide (Coherent after) then
+def judgeR (before : St) (op : Op) (after : St) (srq : List Reg) (srqStale : Bool := false) (appWrite : Bool := false) : List String :=
+  -- operations of the property's histories: everything but writes to the status byte, plus the application's handling of
+  -- its own status-byte bits (0, 1, 4) - bit 6 may be passed either way, the library recomputes it
+  let ok := op.ok || appWrite || (match op with
+    | .setBits n v => n == STB && (v &&& 0xFFAC#16) == 0
+    | .clearBits n v => n == STB && (v &&& 0xFFAC#16) == 0
+    | _ => false)
+  let c11 := if ok && decide (Coherent before) && !decide (Coherent after) then
       -- name the equivalence that broke
       let stb := get after STB
       (if (decide (stb &&& bit Gen.STB_ESR ≠ 0)) != decide (get after ESR &&& get after ESE ≠ 0) then ["C11.esb_summary"] else []) ++
@@ -68,32 +92,34 @@ def judgeR (before : St) (op : Op) (after : St) (srq : List Reg) (srqStale : Boo
       else []
     | _ => []
   let c12mono := [ESR, OPER, QUES].flatMap (fun ev =>
-      if op.ok && !isClearing ev op && (get before ev &&& ~~~(get after ev)) != 0 then ["C12.event_lost"] else [])
+      if ok && !isClearing ev op && (get before ev &&& ~~~(get after ev)) != 0 then ["C12.event_lost"] else [])
   let c12srq :=
     (if srq.any (fun v => v &&& stbSRQ == 0) then ["C12.srq_without_mss"] else []) ++
     (if srqStale then ["C12.srq_value_not_status_byte"] else []) ++
-    (if op.ok && decide (Coherent before) && !mss before && mss after && srq.isEmpty then ["C12.srq_missing_on_rise"] else []) ++
-    (if op.ok && !mss after && !srq.isEmpty && !(match op with | .errPush _ => true | .cls => true | _ => false) then ["C12.srq_while_mss_clear"] else [])
+    (if ok && decide (Coherent before) && !mss before && mss after && srq.isEmpty then ["C12.srq_missing_on_rise"] else []) ++
+    (if ok && !mss after && !srq.isEmpty && !(match op with | .errPush _ => true | .cls => true | _ => false) then ["C12.srq_while_mss_clear"] else [])
   c11 ++ c12class ++ c12latch ++ c12mono ++ c12srq
 
 /-- R <cap> <op>... => <obs>... -/
 def runRegs (inp : List String) (obs : List String) : Option Verdict := do
   let _ :: cap :: ops := inp | none
   let cap ← cap.toNat?
-  let ops ← ops.mapM parseROp
-  let (_, mo) := ops.foldl (fun (acc : St × List String) op =>
+  let ops ← ops.mapM parseROp'
+  let (_, mo) := ops.foldl (fun (acc : St × List String) rop =>
       let s0 := { acc.1 with srq := [], errcb := [] }
-      let s1 := step s0 op
+      let s1 := step s0 (rop.resolve s0)
       (s1, acc.2 ++ [regsStr s1 s1.srq s1.errcb])) (St.init cap, [])
   let rej :=
     if obs.length != ops.length then ["C11.malformed_observation"]
     else
       let (_, r) := (List.zip ops obs).foldl (fun (acc : Option St × List String) x =>
         match acc.1, parseRObs cap x.2 with
-        | some before, some (after, srq, stale) => (some after, acc.2 ++ judgeR before x.1 after srq stale)
+        | some before, some (after, srq, stale) => (some after, acc.2 ++ judgeR before (x.1.resolve before) after srq stale (match x.1 with | .app .. => true | _ => false))
         | _, _ => (none, acc.2 ++ ["C11.malformed_observation"])) (some (St.init cap), [])
       r.eraseDups
-  let kinds := ops.map (fun o => match o with
+  let kinds := ops.map (fun ro => match ro with
+    | .app .. => "appStb"
+    | .plain o => match o with
     | .set n _ => s!"set{n}" | .setBits .. => "setBits" | .clearBits .. => "clearBits" | .errPush _ => "errPush"
     | .errPop => "errPop" | .errClear => "errClear" | .cls => "cls" | .esrQ => "esrQ" | .operQ => "operQ" | .quesQ => "quesQ" | .preset => "preset")
   pure { modelObs := " ".intercalate mo, rejects := rej, nontrivial := ops.length ≥ 1, tags := kinds.eraseDups }
